@@ -174,6 +174,17 @@ theorem C16_exactly_once_partial (p : Params) (ts : List Thr) (c : Cfg St Thr) (
   have h2 := (C16_conservation p ts h0 c hr).2.1
   omega
 
+/-- Sanity of the model's `Start`: in every reachable configuration in which `ShutdownComplete` is at zero
+(the guard of the spawn step) there is no dispatcher left and the dispatch channel is empty, so the
+spawn never overwrites a live dispatcher (the model keeps a single dispatcher slot) — the ghost flag
+`broken` is never raised. -/
+theorem C16_start_spawns_clean (p : Params) (ts : List Thr) (c : Cfg St Thr) (hW : 0 < p.W)
+    (h0 : Initial ts) (hrun : Thr.runner ∈ ts) (hr : Reach (sys p) (St.init, ts) c) (hz : wg c.1 = 0) :
+    c.1.disp = .none ∧ chanIds c.1 = [] ∧ (spawn p c.1).broken = c.1.broken := by
+  obtain ⟨a, b⟩ := spawn_clean (finv_reach p hW ts h0 hrun c hr).l hW hz
+  refine ⟨a, b, ?_⟩
+  simp [spawn, a, b]
+
 theorem stuckB_sound (p : Params) (c : Cfg St Thr) (h : stuckB p c = true) : Stuck (sys p) c := by
   intro t ht
   have := List.all_eq_true.mp h t ht
